@@ -209,6 +209,8 @@ class ModelPtrReplace:
     def ensures(self, t, kwargs, result):
         return {
             "retargeted": self._type is t and result is self,
+            # the hash string of a pointer names its target: a cached one must not survive retargeting (union de-duplication reads it)
+            "cached_hash_dropped@C08,C07": is_none(self._hash),
             "in_new_set": self in attr_set(t, "pointers"),
             "out_of_old_set": implies(not (old(self._type) is t), not (self in attr_set(old(self._type), "pointers"))),
             "other_members_kept": forall(old(attr_set(t, "pointers")), lambda p: p in attr_set(t, "pointers")),
@@ -226,6 +228,7 @@ class ModelPtrReplaceParent:
     def ensures(self, t, kwargs, result):
         return {
             "reparented": self.parent is t and result is self,
+            "cached_hash_dropped@C08,C07": is_none(self._hash),
             "in_new_set": self in attr_set(t, "child_pointers"),
             "out_of_old_set": implies(not (old(self.parent) is t), not (self in attr_set(old(self.parent), "child_pointers"))),
             "other_members_kept": forall(old(attr_set(t, "child_pointers")), lambda p: p in attr_set(t, "child_pointers")),
@@ -494,3 +497,14 @@ class PatternMatch:
 
     def ensures(self, a0, a1, result):
         return {"truthy_iff_matches": truthy(result) == matches(a0, a1)}
+
+
+@contract("json_to_models/dynamic_typing/models_meta.py::AbsoluteModelRef.to_typing_code", props=["C15", "C14"], abstract=True)
+class AbsoluteRefToTypingCode:
+    """C15 'works from a thread other than the importing one': rendering a model reference reads the thread-local reference context
+    only through a defaulting read - no exception is declared, so an unguarded read of an attribute this thread never assigned is an
+    undischarged definedness obligation (def.AttributeError.threadlocal.context)."""
+    sorts = {"result": "tuple", "context_data": "any", "model_path": "any", "model": "any", "imports": "any", "s": "any"}
+
+    def ensures(self, types_style, result):
+        return {"pair": seq_len(result) == 2}
